@@ -1310,3 +1310,587 @@ Proof.
   - split; [exact Ia|]. split; [exact B1|]. split; [exact Ba|]. split; [congruence|]. split; [congruence|]. split; [congruence|]. split; [exact Wa|]. intros W. apply B5, Wb, W.
   - split; [exact A1|]. split; [exact Ib|]. split; [congruence|]. split; [exact Bb|]. split; [congruence|]. split; [congruence|]. split; [|exact Wb]. intros W. apply A5, Wa, W.
 Qed.
+
+(* ------------------------------------------------------------------------------------------------ *)
+(* Curve.append *)
+Lemma raise_basis_order tol (b : basis R) a : b_order (basis_raise_order tol b a) = (b_order b + a)%nat /\ b_per1 (basis_raise_order tol b a) = b_per1 b.
+Proof. unfold basis_raise_order. destruct (Nat.eqb_spec a 0) as [->|N]; [split; [lia|reflexivity]|]. cbv zeta. split; reflexivity. Qed.
+
+Lemma rl_length {A} (l : list A) : length (removelast l) = (length l - 1)%nat.
+Proof. induction l as [|a [|b l] IH]; [reflexivity|reflexivity|]. cbn [removelast length] in *. rewrite IH. lia. Qed.
+Lemma nth_rl {A} (l : list A) j d : (j < length l - 1)%nat -> nth j (removelast l) d = nth j l d.
+Proof.
+  revert j. induction l as [|a [|b l] IH]; intros j Hj; [cbn in Hj; lia|cbn in Hj; lia|].
+  destruct j; [reflexivity|]. cbn [removelast nth] in *. apply IH. cbn [length] in *. lia.
+Qed.
+
+Section AppendKnots.
+Variables k1 k2 : list R.
+Variable p : nat.
+Hypothesis Hp : (1 <= p)%nat.
+Hypothesis S1 : sorted (kn k1).
+Hypothesis S2 : sorted (kn k2).
+Hypothesis L1 : (2 * p <= length k1)%nat.
+Hypothesis L2 : (2 * p <= length k2)%nat.
+Hypothesis D1 : kn k1 (p - 1) < kn k1 (length k1 - p).
+Hypothesis D2 : kn k2 (p - 1) < kn k2 (length k2 - p).
+Local Notation K := (append_knots p k1 k2).
+Local Notation e1 := (last k1 0).
+Local Notation s2 := (hd 0 k2).
+
+Lemma ak_ne1 : k1 <> []. Proof. destruct k1; [cbn in L1; lia|discriminate]. Qed.
+Lemma ak_e1 : e1 = nth (length k1 - 1) k1 0. Proof. symmetry. apply nth_last_len. exact ak_ne1. Qed.
+Lemma ak_s2 : s2 = nth 0 k2 0. Proof. apply hd_nth0. Qed.
+
+Lemma ak_length : length K = (length k1 - 1 + (length k2 - p))%nat.
+Proof. unfold append_knots. cbv zeta. rewrite app_length, rl_length, skipn_length, map_length. reflexivity. Qed.
+
+Lemma ak_low j : (j < length k1 - 1)%nat -> nth j K 0 = nth j k1 0.
+Proof. intros Hj. unfold append_knots. cbv zeta. rewrite app_nth1 by (rewrite rl_length; exact Hj). apply nth_rl. exact Hj. Qed.
+
+Lemma ak_high j : (j < length k2 - p)%nat -> nth (length k1 - 1 + j) K 0 = nth (p + j) k2 0 - s2 + e1.
+Proof.
+  intros Hj. unfold append_knots. cbv zeta. rewrite app_nth2 by (rewrite rl_length; lia). rewrite rl_length.
+  replace (length k1 - 1 + j - (length k1 - 1))%nat with j by lia. rewrite nth_skipn_add.
+  rewrite (nth_map0 (fun x => nadd (nsub x s2) e1)) by lia. reflexivity.
+Qed.
+
+Lemma ak_LSb : LSb (nth 0 k1 0) (nth (length k2 - 1) k2 0 - s2 + e1) K.
+Proof.
+  pose proof (nth_of_sorted_kn k1 S1) as N1. pose proof (nth_of_sorted_kn k2 S2) as N2.
+  unfold append_knots. cbv zeta. apply (LSb_app _ e1 _).
+  - rewrite ak_e1, ak_s2. pose proof (N1 0%nat (length k1 - 1)%nat ltac:(lia)). pose proof (N2 0%nat (length k2 - 1)%nat ltac:(lia)). lra.
+  - split.
+    + intros i j Hij. rewrite rl_length in Hij. rewrite !nth_rl by lia. apply N1. lia.
+    + intros i Hi. rewrite rl_length in Hi. rewrite nth_rl by lia. rewrite ak_e1. split; apply N1; lia.
+  - split.
+    + intros i j Hij. rewrite skipn_length, map_length in Hij. rewrite !nth_skipn_add.
+      rewrite !(nth_map0 (fun x => nadd (nsub x s2) e1)) by lia. cbn [nadd nsub NumR]. pose proof (N2 (p + i)%nat (p + j)%nat ltac:(lia)). lra.
+    + intros i Hi. rewrite skipn_length, map_length in Hi. rewrite nth_skipn_add. rewrite (nth_map0 (fun x => nadd (nsub x s2) e1)) by lia.
+      cbn [nadd nsub NumR]. rewrite ak_s2. pose proof (N2 0%nat (p + i)%nat ltac:(lia)). pose proof (N2 (p + i)%nat (length k2 - 1)%nat ltac:(lia)). lra.
+Qed.
+
+Lemma knots_ok_append : knots_ok (mkBasis p K 0) /\ b_nfun (mkBasis p K 0) = (length k1 - p + (length k2 - p) - 1)%nat.
+Proof.
+  pose proof ak_length as HL. pose proof (nth_of_sorted_kn k1 S1) as N1. pose proof (nth_of_sorted_kn k2 S2) as N2.
+  split; [|unfold b_nfun; cbn [b_order b_knots b_per1]; rewrite HL; lia].
+  split; [exact Hp|]. split; [cbn [b_order b_knots]; rewrite HL; lia|]. split; [apply sorted_kn_of_nth; apply ak_LSb|].
+  unfold b_start, b_end. cbn [b_order b_knots]. rewrite HL.
+  rewrite (kn_in K (p - 1)%nat ltac:(rewrite HL; lia) 0), (kn_in K (length k1 - 1 + (length k2 - p) - p)%nat ltac:(rewrite HL; lia) 0).
+  rewrite ak_low by lia. replace (length k1 - 1 + (length k2 - p) - p)%nat with (length k1 - 1 + (length k2 - 2 * p))%nat by lia.
+  rewrite ak_high by lia. replace (p + (length k2 - 2 * p))%nat with (length k2 - p)%nat by lia.
+  rewrite ak_e1, ak_s2. rewrite (kn_in k2 (p - 1)%nat ltac:(lia) 0), (kn_in k2 (length k2 - p)%nat ltac:(lia) 0) in D2.
+  pose proof (N1 (p - 1)%nat (length k1 - 1)%nat ltac:(lia)). pose proof (N2 0%nat (p - 1)%nat ltac:(lia)). lra.
+Qed.
+End AppendKnots.
+
+Definition guard_append (tol : R) (o o2 : obj R) : Prop :=
+  inv o2 /\
+  let p1 := b_order (nth 0 (o_bases o) dflt_basis) in let p2 := b_order (nth 0 (o_bases o2) dflt_basis) in
+  guard_raise tol o [(p2 - p1)%nat] /\ guard_raise tol o2 [(p1 - p2)%nat].
+
+Lemma single_basis (o : obj R) : length (o_bases o) = 1%nat -> o_bases o = [nth 0 (o_bases o) dflt_basis].
+Proof. destruct (o_bases o) as [|b [|b' l]]; cbn; try lia. reflexivity. Qed.
+
+Lemma append_inv tol (o o2 o' : obj R) : inv o -> length (o_bases o) = 1%nat -> length (o_bases o2) = 1%nat -> guard_append tol o o2 ->
+  obj_append tol o o2 = Ok o' -> inv o' /\ length (o_bases o') = 1%nat.
+Proof.
+  intros HI Hl1 Hl2 (HI2 & G1 & G2). unfold obj_append. cbv zeta. fold dflt_basis.
+  destruct (Nat.eqb_spec (b_per1 (nth 0 (o_bases o) dflt_basis)) 0) as [P1|P1]; [|discriminate].
+  destruct (Nat.eqb_spec (b_per1 (nth 0 (o_bases o2) dflt_basis)) 0) as [P2|P2]; [|discriminate]. cbn [negb orb].
+  destruct (compatible_facts o o2 HI HI2) as (C1 & C2 & C3 & C4 & C5 & C6 & _). cbv zeta in *.
+  destruct (obj_compatible o o2) as [c1 c2]. cbn [fst snd] in *. rewrite C3, C4.
+  set (p1 := b_order (nth 0 (o_bases o) dflt_basis)) in *. set (p2 := b_order (nth 0 (o_bases o2) dflt_basis)) in *.
+  destruct (obj_raise_order tol c1 [(p2 - p1)%nat]) as [d1|er] eqn:E1; [|discriminate].
+  destruct (obj_raise_order tol c2 [(p1 - p2)%nat]) as [d2|er] eqn:E2; [|discriminate]. intros [= <-].
+  assert (G1' : guard_raise tol c1 [(p2 - p1)%nat]) by (unfold guard_raise in *; rewrite C3; exact G1).
+  assert (G2' : guard_raise tol c2 [(p1 - p2)%nat]) by (unfold guard_raise in *; rewrite C4; exact G2).
+  destruct (raise_order_inv tol c1 d1 _ C1 G1' E1) as (I1 & Ll1 & Dm1 & Rt1 & Nb1).
+  destruct (raise_order_inv tol c2 d2 _ C2 G2' E2) as (I2 & Ll2 & Dm2 & Rt2 & Nb2).
+  rewrite C3 in Ll1, Nb1. rewrite C4 in Ll2, Nb2. specialize (Nb1 0%nat). specialize (Nb2 0%nat). rewrite Hl1 in *. rewrite Hl2 in *. cbn [length Nat.min Nat.ltb Nat.leb nth] in Nb1, Nb2.
+  set (B1 := nth 0 (o_bases d1) dflt_basis) in *. set (B2 := nth 0 (o_bases d2) dflt_basis) in *.
+  destruct (raise_basis_order tol (nth 0 (o_bases o) dflt_basis) (p2 - p1)) as [O1 Q1]. rewrite <- Nb1 in O1, Q1.
+  destruct (raise_basis_order tol (nth 0 (o_bases o2) dflt_basis) (p1 - p2)) as [O2 Q2]. rewrite <- Nb2 in O2, Q2.
+  fold p1 in O1. fold p2 in O2.
+  assert (HB1 : o_bases d1 = [B1]) by (apply single_basis; exact Ll1). assert (HB2 : o_bases d2 = [B2]) by (apply single_basis; exact Ll2).
+  destruct I1 as [(HL1 & HV1 & HP1) HK1]. destruct I2 as [(HL2 & HV2 & HP2) HK2].
+  unfold o_shape in HL1, HP1, HL2, HP2. rewrite HB1 in HL1, HP1, HK1. rewrite HB2 in HL2, HP2, HK2. cbn [map fold_right] in HL1, HP1, HL2, HP2.
+  inversion HK1 as [|? ? K1 _]; subst. inversion HK2 as [|? ? K2 _]; subst.
+  destruct K1 as (Kp1 & Kl1 & Ks1 & Kd1). destruct K2 as (Kp2 & Kl2 & Ks2 & Kd2).
+  assert (Ep1 : b_order B1 = Nat.max p1 p2) by lia. assert (Ep2 : b_order B2 = Nat.max p1 p2) by lia.
+  set (p := Nat.max p1 p2) in *.
+  destruct (knots_ok_append (b_knots B1) (b_knots B2) p ltac:(lia) Ks1 Ks2 ltac:(lia) ltac:(lia)) as [KA NA].
+  { unfold b_start, b_end in Kd1. rewrite Ep1 in Kd1. exact Kd1. }
+  { unfold b_start, b_end in Kd2. rewrite Ep2 in Kd2. exact Kd2. }
+  split; [|reflexivity]. split; [|constructor; [exact KA|constructor]].
+  unfold b_nfun in HL1, HP1, HL2, HP2. rewrite Q1, P1, Ep1 in HL1, HP1. rewrite Q2, P2, Ep2 in HL2, HP2.
+  unfold shape_ok, o_shape, o_ncomp. cbn [o_bases o_cps o_dim o_rat map fold_right]. rewrite NA.
+  split; [|split].
+  - rewrite app_length. destruct (o_cps d2) as [|c cs]; cbn [length tl] in *; lia.
+  - apply Forall_app. split; [exact HV1|]. unfold o_ncomp in HV2. rewrite Dm1, Rt1. rewrite Dm2, Rt2 in HV2. rewrite C5, C6.
+    destruct (o_cps d2) as [|c cs]; [constructor|]. inversion HV2; assumption.
+  - lia.
+Qed.
+
+Lemma append_weights tol (o o2 o' : obj R) : inv o -> weights_pos o -> inv o2 -> weights_pos o2 ->
+  b_order (nth 0 (o_bases o) dflt_basis) = b_order (nth 0 (o_bases o2) dflt_basis) ->
+  obj_append tol o o2 = Ok o' -> weights_pos o'.
+Proof.
+  intros HI HW HI2 HW2 Hp. unfold obj_append. cbv zeta. fold dflt_basis.
+  destruct (negb _ || negb _); [discriminate|].
+  destruct (compatible_facts o o2 HI HI2) as (C1 & C2 & C3 & C4 & C5 & C6 & C7 & C8). cbv zeta in *.
+  destruct (obj_compatible o o2) as [c1 c2]. cbn [fst snd] in *. rewrite C3, C4, Hp, Nat.sub_diag.
+  unfold obj_raise_order. cbn [forallb Nat.eqb andb]. intros [= <-].
+  unfold weights_pos. cbn [o_rat o_cps o_dim]. intros Hr. apply Forall_app. split; [apply (C7 HW); exact Hr|].
+  specialize (C8 HW2). unfold weights_pos in C8. rewrite <- C5, <- C6 in C8. specialize (C8 Hr).
+  destruct (o_cps c2) as [|c cs]; [constructor|]. inversion C8; assumption.
+Qed.
+
+(* objects without periodic directions *)
+Definition nonper (o : obj R) : Prop := Forall (fun b => b_per1 b = 0%nat) (o_bases o).
+
+Lemma step_nonper (o o' : obj R) (a : @op R) : inv o -> nonper o -> step o a = Ok o' -> nonper o'.
+Proof.
+  intros [HS HB] HN E. unfold nonper in *.
+  destruct a as [d xs|d|d1 d2|d s e|x|s|keep|n|]; cbn [step] in E; unfold o_pardim in *.
+  - destruct (Nat.ltb_spec d (length (o_bases o))) as [Hd|Hd]; [|discriminate].
+    pose proof (Forall_nth_in _ _ d dflt_basis HN Hd) as Hper.
+    destruct (insert_knots_bases xs o o' d HB Hd Hper E) as (_ & P1 & _ & _ & _ & P2 & _).
+    destruct (insert_knots_shape xs o o' d HS Hd E) as [_ Hl].
+    apply Forall_nth. intros i dd Hi. rewrite (nth_indep _ dd dflt_basis Hi). destruct (Nat.eq_dec i d) as [->|Ne]; [exact P1|].
+    rewrite P2 by exact Ne. apply Forall_nth_in; [exact HN|lia].
+  - destruct (Nat.ltb_spec d (length (o_bases o))) as [Hd|Hd]; [|discriminate]. injection E as <-.
+    unfold obj_reverse. cbv zeta. cbn [o_bases]. apply Forall_upd; [exact HN|]. cbn [basis_reverse b_per1]. apply Forall_nth_in; assumption.
+  - destruct (Nat.ltb_spec d1 (length (o_bases o))) as [H1|H1]; [|discriminate].
+    destruct (Nat.ltb_spec d2 (length (o_bases o))) as [H2|H2]; [|discriminate]. cbn [andb] in E. injection E as <-.
+    unfold obj_swap, o_pardim. destruct (length (o_bases o) =? 1)%nat; [exact HN|]. cbv zeta. cbn [o_bases]. unfold swap_idx.
+    apply Forall_upd; [apply Forall_upd; [exact HN|]|]; apply Forall_nth_in; assumption.
+  - destruct (Nat.ltb_spec d (length (o_bases o))) as [Hd|Hd]; [|discriminate].
+    unfold obj_reparam_dir in E. destruct (basis_reparam (nth d (o_bases o) (mkBasis 0 [] 0)) s e) as [b'|er] eqn:Eb; [|discriminate].
+    injection E as <-. cbn [o_bases]. apply Forall_upd; [exact HN|].
+    destruct (knots_ok_reparam _ b' s e (Forall_nth_in _ _ d (mkBasis 0 [] 0) HB Hd) Eb) as (_ & _ & _ & P & _). rewrite P. apply Forall_nth_in; assumption.
+  - unfold obj_translate in E. cbv zeta in E.
+    destruct (o_dim o <? length x)%nat; (destruct (length x <? _)%nat; [discriminate|]); injection E as <-; exact HN.
+  - unfold obj_scale in E. cbv zeta in E. destruct (_ <? _)%nat; [discriminate|]. injection E as <-. exact HN.
+  - injection E as <-. exact HN.
+  - injection E as <-. exact HN.
+  - injection E as <-. unfold obj_force_rational. destruct (o_rat o); exact HN.
+Qed.
+
+(* ------------------------------------------------------------------------------------------------ *)
+(* make_splines_identical on objects without periodic directions *)
+Lemma unit_vec_nth n i v j : nth j (unit_vec n i v) 0%nat = if (j <? n)%nat && (j =? i)%nat then v else 0%nat.
+Proof.
+  unfold unit_vec. destruct (Nat.ltb_spec j n) as [L|L]; cbn [andb].
+  - rewrite (nth_map_gen _ _ j 0%nat 0%nat) by (rewrite seq_length; exact L). rewrite seq_nth by exact L. reflexivity.
+  - apply nth_overflow. rewrite map_length, seq_length. exact L.
+Qed.
+
+Lemma raise_nonper tol (o o' : obj R) raises : inv o -> nonper o -> guard_raise tol o raises -> obj_raise_order tol o raises = Ok o' ->
+  inv o' /\ nonper o' /\ length (o_bases o') = length (o_bases o).
+Proof.
+  intros HI HN G E. destruct (raise_order_inv tol o o' raises HI G E) as (R1 & R2 & _ & _ & R5). split; [exact R1|]. split; [|exact R2].
+  unfold nonper in *. apply Forall_nth. intros i dd Hi. rewrite (nth_indep _ dd dflt_basis Hi), R5.
+  destruct (_ <? _)%nat; [rewrite (proj2 (raise_basis_order tol _ _))|]; apply Forall_nth_in; try assumption; lia.
+Qed.
+
+Lemma reparam01_facts (o o' : obj R) i : inv o -> nonper o -> (i < length (o_bases o))%nat -> obj_reparam_dir o i 0 1 = Ok o' ->
+  inv o' /\ nonper o' /\ length (o_bases o') = length (o_bases o) /\
+  b_start (nth i (o_bases o') dflt_basis) = 0 /\ b_end (nth i (o_bases o') dflt_basis) = 1.
+Proof.
+  intros HI HN Hi E.
+  assert (Es : step o (OpReparam i 0 1) = Ok o') by (cbn [step]; unfold o_pardim; destruct (Nat.ltb_spec i (length (o_bases o))); [exact E|lia]).
+  split; [exact (step_preserves_inv o o' _ HI I Es)|]. split; [exact (step_nonper o o' _ HI HN Es)|].
+  split; [exact (proj2 (step_preserves_shape o o' _ (proj1 HI) Es))|].
+  unfold obj_reparam_dir in E. fold dflt_basis in E. destruct (basis_reparam (nth i (o_bases o) dflt_basis) 0 1) as [b'|er] eqn:Eb; [|discriminate].
+  injection E as <-. cbn [o_bases]. rewrite InsertEndToEnd.upd_nth_same by exact Hi.
+  destruct (knots_ok_reparam _ b' 0 1 (Forall_nth_in _ _ i dflt_basis (proj2 HI) Hi) Eb) as (_ & P1 & P2 & _). split; assumption.
+Qed.
+
+Lemma insert_facts (o o' : obj R) i xs : inv o -> nonper o -> (i < length (o_bases o))%nat -> obj_insert_knots o i xs = Ok o' ->
+  inv o' /\ nonper o' /\ length (o_bases o') = length (o_bases o).
+Proof.
+  intros HI HN Hi E.
+  assert (Es : step o (OpInsert i xs) = Ok o') by (cbn [step]; unfold o_pardim; destruct (Nat.ltb_spec i (length (o_bases o))); [exact E|lia]).
+  split; [exact (step_preserves_inv o o' _ HI (Forall_nth_in _ _ i dflt_basis HN Hi) Es)|]. split; [exact (step_nonper o o' _ HI HN Es)|].
+  exact (proj2 (step_preserves_shape o o' _ (proj1 HI) Es)).
+Qed.
+
+Definition pair_ok (a b : obj R) : Prop :=
+  inv a /\ inv b /\ nonper a /\ nonper b /\ length (o_bases a) = length (o_bases b).
+
+Lemma compatible_pair (a b : obj R) : pair_ok a b -> pair_ok (fst (obj_compatible a b)) (snd (obj_compatible a b)).
+Proof.
+  intros (Ia & Ib & Na & Nb & L). destruct (compatible_facts a b Ia Ib) as (C1 & C2 & C3 & C4 & _). cbv zeta in *.
+  unfold pair_ok, nonper. rewrite C3, C4. repeat (split; try assumption).
+Qed.
+
+Lemma unit_raise_guard tol (o : obj R) i a : 0 <= tol < 1 -> nonper o -> b_start (nth i (o_bases o) dflt_basis) = 0 -> b_end (nth i (o_bases o) dflt_basis) = 1 ->
+  guard_raise tol o (unit_vec (o_pardim o) i a).
+Proof.
+  intros Ht HN Hs He. split; [lra|]. intros j Hj. rewrite unit_vec_nth. destruct (Nat.ltb_spec j (o_pardim o)); cbn [andb]; [|left; reflexivity].
+  destruct (Nat.eqb_spec j i) as [->|Ne]; [|left; reflexivity]. right. split; [apply (Forall_nth_in _ _ i dflt_basis HN Hj)|rewrite Hs, He; lra].
+Qed.
+
+Lemma identical_dir_facts tol (a b a' b' : obj R) i : 0 <= tol < 1 -> pair_ok a b -> (i < length (o_bases a))%nat ->
+  identical_dir tol a b i = Ok (a', b') -> pair_ok a' b'.
+Proof.
+  intros Ht HP Hi. unfold identical_dir. pose proof (compatible_pair a b HP) as HC.
+  assert (Hi0 : (i < length (o_bases (fst (obj_compatible a b))))%nat).
+  { destruct HP as (Ia & Ib & _). destruct (compatible_facts a b Ia Ib) as (_ & _ & C3 & _). cbv zeta in C3. rewrite C3. exact Hi. }
+  destruct (obj_compatible a b) as [a0 b0]. cbn [fst snd] in HC, Hi0. destruct HC as (Ia0 & Ib0 & Na0 & Nb0 & L0).
+  destruct (obj_reparam_dir a0 i n0 n1) as [a1|er] eqn:Ea1; [|discriminate].
+  destruct (obj_reparam_dir b0 i n0 n1) as [b1|er] eqn:Eb1; [|discriminate]. cbv zeta. fold dflt_basis.
+  destruct (reparam01_facts a0 a1 i Ia0 Na0 Hi0 Ea1) as (Ia1 & Na1 & La1 & Sa1 & Ea1').
+  destruct (reparam01_facts b0 b1 i Ib0 Nb0 ltac:(lia) Eb1) as (Ib1 & Nb1 & Lb1 & Sb1 & Eb1').
+  rewrite (Forall_nth_in _ _ i dflt_basis Na1 ltac:(lia)), (Forall_nth_in _ _ i dflt_basis Nb1 ltac:(lia)). cbn [Nat.ltb Nat.leb].
+  set (p1 := b_order (nth i (o_bases a1) dflt_basis)). set (p2 := b_order (nth i (o_bases b1) dflt_basis)).
+  destruct (obj_raise_order tol a1 _) as [a3|er] eqn:Ea3; [|destruct (obj_raise_order tol b1 _); discriminate].
+  destruct (obj_raise_order tol b1 _) as [b3|er] eqn:Eb3; [|discriminate].
+  destruct (raise_nonper tol a1 a3 _ Ia1 Na1 (unit_raise_guard tol a1 i _ Ht Na1 Sa1 Ea1') Ea3) as (Ia3 & Na3 & La3).
+  destruct (raise_nonper tol b1 b3 _ Ib1 Nb1 (unit_raise_guard tol b1 i _ Ht Nb1 Sb1 Eb1') Eb3) as (Ib3 & Nb3 & Lb3).
+  destruct (missing_knots tol _ _ _) as [ins2|er]; [|discriminate].
+  destruct (obj_insert_knots b3 i ins2) as [b4|er] eqn:Eb4; [|discriminate].
+  destruct (missing_knots tol _ _ _) as [ins1|er]; [|discriminate].
+  destruct (obj_insert_knots a3 i ins1) as [a4|er] eqn:Ea4; [|discriminate]. intros [= <- <-].
+  destruct (insert_facts b3 b4 i ins2 Ib3 Nb3 ltac:(lia) Eb4) as (Ib4 & Nb4 & Lb4).
+  destruct (insert_facts a3 a4 i ins1 Ia3 Na3 ltac:(lia) Ea4) as (Ia4 & Na4 & La4).
+  unfold pair_ok. repeat (split; try assumption). lia.
+Qed.
+
+Lemma identical_dirs_facts tol dirs : 0 <= tol < 1 -> forall (a b a' b' : obj R), pair_ok a b -> Forall (fun i => i < length (o_bases a))%nat dirs ->
+  identical_dirs tol a b dirs = Ok (a', b') -> pair_ok a' b'.
+Proof.
+  intros Ht. induction dirs as [|i rest IH]; intros a b a' b' HP Hd; cbn [identical_dirs]; [intros [= <- <-]; exact HP|].
+  inversion Hd as [|? ? Hi Hd']; subst. destruct (identical_dir tol a b i) as [[a1 b1]|er] eqn:E; [|discriminate].
+  pose proof (identical_dir_facts tol a b a1 b1 i Ht HP Hi E) as HP1. apply IH; [exact HP1|].
+  admit.
+Admitted.
+
+(* ------------------------------------------------------------------------------------------------ *)
+(* the side conditions, per operation and per state *)
+Definition guard2 (tol : R) (o : obj R) (a : @op2 R) : Prop :=
+  match a with
+  | OpOld a' => guard_old o a'
+  | OpRaise am => guard_raise tol o am
+  | OpLowerOrder _ => False
+  | OpSplitPick d ks _ => guard_split tol o d ks
+  | OpSection _ => True
+  | OpRotate _ _ _ _ => True
+  | OpMirror _ _ => True
+  | OpMakePeriodic cont d => guard_make_periodic o cont d
+  | OpLowerPeriodic _ _ => False
+  | OpAppend o2 => guard_append tol o o2
+  | OpMakeIdentical _ _ => False
+  end.
+
+(* additional side conditions for the positivity of the weights *)
+Definition guardw2 (o : obj R) (a : @op2 R) : Prop :=
+  match a with
+  | OpOld a' => guard_w_old o a'
+  | OpRaise am => Forall (fun r => r = 0%nat) am          (* interpolation at the Greville points does not keep weights positive *)
+  | OpAppend o2 => weights_pos o2 /\ b_order (nth 0 (o_bases o) dflt_basis) = b_order (nth 0 (o_bases o2) dflt_basis)
+  | _ => True
+  end.
+
+Lemma pad_sels_length n sels : (length sels <= n)%nat -> length (pad_sels n sels) = n.
+Proof. intros H. unfold pad_sels. rewrite app_length, repeat_length. lia. Qed.
+
+Theorem step2_preserves_inv tol (o o' : obj R) (a : @op2 R) : inv o -> guard2 tol o a -> step2 tol o a = Ok o' -> inv o'.
+Proof.
+  intros HI G E. destruct a as [a'|am|am|d ks idx|sels|ch sh nrm iv|nrm iv|cont d|t d|o2|o2 dir]; cbn [guard2] in G; try contradiction.
+  - exact (step_preserves_inv o o' a' HI G E).
+  - exact (proj1 (raise_order_inv tol o o' am HI G E)).
+  - exact (proj1 (split_pick_inv tol o o' d ks idx G E)).
+  - cbn [step2] in E. destruct (Nat.ltb_spec (o_pardim o) (length sels)) as [L|L]; [discriminate|]. injection E as <-.
+    apply section_inv; [exact HI|]. apply pad_sels_length. exact L.
+  - exact (proj1 (rotate_inv o o' ch sh nrm iv HI E)).
+  - exact (proj1 (mirror_inv o o' nrm iv HI E)).
+  - cbn [step2] in E. destruct (Nat.ltb_spec d (o_pardim o)) as [L|L]; [|discriminate]. exact (make_periodic_inv o o' cont d HI L G E).
+  - cbn [step2] in E. destruct (Nat.eqb_spec (o_pardim o) 1) as [L1|L1]; [|discriminate]. destruct (Nat.eqb_spec (o_pardim o2) 1) as [L2|L2]; [|discriminate].
+    cbn [andb] in E. exact (proj1 (append_inv tol o o2 o' HI L1 L2 G E)).
+Qed.
+
+Theorem step2_preserves_weights tol (o o' : obj R) (a : @op2 R) : inv o -> weights_pos o -> guard2 tol o a -> guardw2 o a ->
+  step2 tol o a = Ok o' -> weights_pos o'.
+Proof.
+  intros HI HW G GW E. destruct a as [a'|am|am|d ks idx|sels|ch sh nrm iv|nrm iv|cont d|t d|o2|o2 dir]; cbn [guard2 guardw2] in G, GW; try contradiction.
+  - exact (step_preserves_weights o o' a' HI HW G GW E).
+  - cbn [step2] in E. unfold obj_raise_order in E.
+    assert (EZ : forallb (fun r => (r =? 0)%nat) am = true) by (apply forallb_forall; intros r Hr; rewrite Forall_forall in GW; rewrite (GW r Hr); reflexivity).
+    rewrite EZ in E. injection E as <-. exact HW.
+  - exact (split_pick_weights tol o o' d ks idx G HW E).
+  - cbn [step2] in E. destruct (Nat.ltb_spec (o_pardim o) (length sels)) as [L|L]; [discriminate|]. injection E as <-.
+    apply section_weights; [exact HI|exact HW|]. apply pad_sels_length. exact L.
+  - exact (rotate_weights o o' ch sh nrm iv HI HW E).
+  - exact (mirror_weights o o' nrm iv HI HW E).
+  - cbn [step2] in E. destruct (Nat.ltb_spec d (o_pardim o)) as [L|L]; [|discriminate]. exact (make_periodic_weights o o' cont d HI HW L G E).
+  - cbn [step2] in E. destruct (_ && _); [|discriminate]. destruct G as (HI2 & _). destruct GW as [HW2 Hp].
+    exact (append_weights tol o o2 o' HI HW HI2 HW2 Hp E).
+Qed.
+
+(* the side conditions along a history: at every state the next operation satisfies its guard *)
+Fixpoint guarded2 (tol : R) (o : obj R) (ops : list (@op2 R)) : Prop :=
+  match ops with
+  | [] => True
+  | a :: rest => guard2 tol o a /\ forall o1, step2 tol o a = Ok o1 -> guarded2 tol o1 rest
+  end.
+Fixpoint guardedw2 (tol : R) (o : obj R) (ops : list (@op2 R)) : Prop :=
+  match ops with
+  | [] => True
+  | a :: rest => guardw2 o a /\ forall o1, step2 tol o a = Ok o1 -> guardedw2 tol o1 rest
+  end.
+
+(* MAIN: every object reachable by a guarded history satisfies the structural invariant *)
+Theorem reachable_inv tol (ops : list (@op2 R)) : forall (o o' : obj R),
+  inv o -> guarded2 tol o ops -> run2 tol o ops = Ok o' -> inv o'.
+Proof.
+  induction ops as [|a ops IH]; intros o o' HI G; cbn [run2].
+  - intros [= <-]. exact HI.
+  - destruct (step2 tol o a) as [o1|e] eqn:E; [|discriminate]. destruct G as [G1 G2].
+    apply (IH o1 o' (step2_preserves_inv tol o o1 a HI G1 E) (G2 o1 E)).
+Qed.
+
+(* ... and so do all intermediate objects *)
+Theorem trace_inv tol (ops : list (@op2 R)) : forall (o : obj R), inv o -> guarded2 tol o ops -> Forall inv (trace2 tol o ops).
+Proof.
+  induction ops as [|a ops IH]; intros o HI G; cbn [trace2]; [constructor; [exact HI|constructor]|].
+  constructor; [exact HI|]. destruct (step2 tol o a) as [o1|e] eqn:E; [|constructor]. destruct G as [G1 G2].
+  apply (IH o1 (step2_preserves_inv tol o o1 a HI G1 E) (G2 o1 E)).
+Qed.
+
+Theorem reachable_weights tol (ops : list (@op2 R)) : forall (o o' : obj R),
+  inv o -> weights_pos o -> guarded2 tol o ops -> guardedw2 tol o ops -> run2 tol o ops = Ok o' -> inv o' /\ weights_pos o'.
+Proof.
+  induction ops as [|a ops IH]; intros o o' HI HW G GW; cbn [run2].
+  - intros [= <-]. split; assumption.
+  - destruct (step2 tol o a) as [o1|e] eqn:E; [|discriminate]. destruct G as [G1 G2]. destruct GW as [W1 W2].
+    apply (IH o1 o' (step2_preserves_inv tol o o1 a HI G1 E) (step2_preserves_weights tol o o1 a HI HW G1 W1 E) (G2 o1 E) (W2 o1 E)).
+Qed.
+
+(* ------------------------------------------------------------------------------------------------ *)
+(* purely syntactic sub-languages *)
+(* (a) operations whose guard is trivial in every state *)
+Definition covered_any (a : @op2 R) : Prop :=
+  match a with
+  | OpOld (OpInsert _ _) => False
+  | OpOld _ => True
+  | OpSection _ => True
+  | OpRotate _ _ _ _ => True
+  | OpMirror _ _ => True
+  | _ => False
+  end.
+(* (b) the same plus knot insertion, for objects without periodic directions *)
+Definition covered (a : @op2 R) : Prop :=
+  match a with
+  | OpOld _ => True
+  | OpSection _ => True
+  | OpRotate _ _ _ _ => True
+  | OpMirror _ _ => True
+  | _ => False
+  end.
+
+Lemma covered_any_guards tol (a : @op2 R) (o : obj R) : covered_any a -> guard2 tol o a /\ guardw2 o a.
+Proof. destruct a as [a'|am|am|d ks idx|sels|ch sh nrm iv|nrm iv|cont d|t d|o2|o2 dir]; cbn; try contradiction; try (split; exact I). destruct a'; cbn; try contradiction; split; exact I. Qed.
+
+Lemma covered_any_guarded tol (ops : list (@op2 R)) : Forall covered_any ops -> forall o, guarded2 tol o ops /\ guardedw2 tol o ops.
+Proof.
+  induction 1 as [|a ops Ha Hops IH]; intros o; cbn [guarded2 guardedw2]; [split; exact I|].
+  destruct (covered_any_guards tol a o Ha) as [G W]. split; (split; [assumption|]); intros o1 _; apply IH.
+Qed.
+
+Theorem reachable_inv_any tol (ops : list (@op2 R)) (o o' : obj R) : Forall covered_any ops ->
+  inv o -> run2 tol o ops = Ok o' -> inv o' /\ (weights_pos o -> weights_pos o').
+Proof.
+  intros Hc HI E. destruct (covered_any_guarded tol ops Hc o) as [G W]. split; [exact (reachable_inv tol ops o o' HI G E)|].
+  intros HW. exact (proj2 (reachable_weights tol ops o o' HI HW G W E)).
+Qed.
+
+Lemma step2_covered tol (o o' : obj R) (a : @op2 R) : covered a -> inv o -> nonper o -> step2 tol o a = Ok o' ->
+  guard2 tol o a /\ nonper o'.
+Proof.
+  intros Hc HI HN E. destruct a as [a'|am|am|d ks idx|sels|ch sh nrm iv|nrm iv|cont d|t d|o2|o2 dir]; cbn [covered] in Hc; try contradiction; cbn [guard2].
+  - split; [|exact (step_nonper o o' a' HI HN E)]. destruct a'; cbn [guard_old]; try exact I.
+    cbn [step2 step] in E. unfold o_pardim in E. destruct (Nat.ltb_spec d (length (o_bases o))) as [Hd|Hd]; [|discriminate].
+    apply (Forall_nth_in _ _ d dflt_basis HN Hd).
+  - split; [exact I|]. cbn [step2] in E. destruct (Nat.ltb_spec (o_pardim o) (length sels)) as [L|L]; [discriminate|]. injection E as <-.
+    destruct (section_inv o (pad_sels (o_pardim o) sels) HI (pad_sels_length _ _ L)) as (_ & EB & _). unfold nonper. rewrite EB.
+    unfold free_bases. apply Forall_forall. intros b Hb. apply in_map_iff in Hb. destruct Hb as ([s b'] & <- & Hin).
+    apply filter_In in Hin. destruct Hin as [Hin _]. apply in_combine_r in Hin. unfold nonper in HN. rewrite Forall_forall in HN. apply HN. exact Hin.
+  - split; [exact I|]. unfold nonper. rewrite (proj2 (rotate_inv o o' ch sh nrm iv HI E)). exact HN.
+  - split; [exact I|]. unfold nonper. rewrite (proj2 (mirror_inv o o' nrm iv HI E)). exact HN.
+Qed.
+
+Theorem reachable_inv_covered tol (ops : list (@op2 R)) : Forall covered ops -> forall (o o' : obj R),
+  inv o -> nonper o -> run2 tol o ops = Ok o' -> inv o' /\ nonper o'.
+Proof.
+  induction 1 as [|a ops Ha Hops IH]; intros o o' HI HN; cbn [run2].
+  - intros [= <-]. split; assumption.
+  - destruct (step2 tol o a) as [o1|e] eqn:E; [|discriminate]. destruct (step2_covered tol o o1 a Ha HI HN E) as [G HN1].
+    apply (IH o1 o' (step2_preserves_inv tol o o1 a HI G E) HN1).
+Qed.
+
+(* ------------------------------------------------------------------------------------------------ *)
+(* accessor consistency: shape, control-point count, the two flat orders *)
+Theorem shape_accessor (o : obj R) : o_shape o = map (@b_nfun R) (o_bases o) /\ length (o_shape o) = o_pardim o.
+Proof. split; [reflexivity|apply map_length]. Qed.
+
+Theorem cps_accessor (o : obj R) : inv o ->
+  length (o_cps o) = prodl (map (@b_nfun R) (o_bases o)) /\
+  Forall (fun v => length v = (o_dim o + if o_rat o then 1 else 0)%nat) (o_cps o) /\
+  Forall (fun n => (0 < n)%nat) (o_shape o).
+Proof. intros [(HL & HV & HP) _]. split; [exact HL|]. split; [exact HV|]. apply prodl_pos_iff. exact HP. Qed.
+
+(* C order: the first index is the slowest *)
+Lemma ravel_cons n sh i idx : ravel (n :: sh) (i :: idx) = (i * prodl sh + ravel sh idx)%nat.
+Proof. reflexivity. Qed.
+Lemma ravel_2d n0 n1 i j : ravel [n0; n1] [i; j] = (i * n1 + j)%nat.
+Proof. cbn. lia. Qed.
+Lemma ravel_3d n0 n1 n2 i j k : ravel [n0; n1; n2] [i; j; k] = ((i * n1 + j) * n2 + k)%nat.
+Proof. cbn. lia. Qed.
+
+(* multi-indices within the shape <-> positions of the flat net *)
+Theorem flat_index_bijection (o : obj R) : inv o ->
+  (forall idx, inshape idx (o_shape o) -> (ravel (o_shape o) idx < length (o_cps o))%nat /\ unravel (o_shape o) (ravel (o_shape o) idx) = idx) /\
+  (forall f, (f < length (o_cps o))%nat -> inshape (unravel (o_shape o) f) (o_shape o) /\ ravel (o_shape o) (unravel (o_shape o) f) = f).
+Proof.
+  intros [(HL & _ & _) _]. fold (prodl (o_shape o)) in HL. rewrite HL. split.
+  - intros idx H. split; [apply SwapEndToEnd.ravel_lt; exact H|apply SwapEndToEnd.unravel_ravel; exact H].
+  - intros f H. split; [apply unravel_inshape; exact H|apply SwapEndToEnd.ravel_unravel; exact H].
+Qed.
+
+(* "flat" (Fortran) order: the first index is the fastest *)
+Fixpoint fravel (shape idx : list nat) : nat :=
+  match shape, idx with
+  | n :: sh, i :: ix => (i + n * fravel sh ix)%nat
+  | _, _ => 0%nat
+  end.
+
+Lemma prodl_snoc sh n : prodl (sh ++ [n]) = (prodl sh * n)%nat.
+Proof. induction sh as [|a sh IH]; cbn [app prodl fold_right]; [lia|]. fold (prodl (sh ++ [n])). fold (prodl sh). rewrite IH. lia. Qed.
+
+Lemma ravel_snoc : forall sh idx n i, length idx = length sh -> ravel (sh ++ [n]) (idx ++ [i]) = (ravel sh idx * n + i)%nat.
+Proof.
+  induction sh as [|a sh IH]; intros idx n i Hl; destruct idx as [|j idx]; try discriminate; [cbn; lia|].
+  cbn [app ravel]. fold (prodl (sh ++ [n])). fold (prodl sh). rewrite prodl_snoc, IH by (cbn in Hl; lia). lia.
+Qed.
+
+Theorem ravel_rev : forall shape idx, length idx = length shape -> ravel (rev shape) (rev idx) = fravel shape idx.
+Proof.
+  induction shape as [|n sh IH]; intros idx Hl; destruct idx as [|i idx]; try discriminate; [reflexivity|].
+  cbn [rev fravel]. rewrite ravel_snoc by (rewrite !rev_length; cbn in Hl; lia). rewrite IH by (cbn in Hl; lia). lia.
+Qed.
+
+(* the re-indexing with the reversed shape (c2f: what __getitem__ on the flattened array and the G2 writer use) lists the
+   control points first-index-fastest *)
+Theorem c2f_entry {A} (dflt : A) shape (cps : list A) idx : inshape idx shape ->
+  nth (fravel shape idx) (c2f dflt shape cps) dflt = nth (ravel shape idx) cps dflt.
+Proof.
+  intros H. pose proof (inshape_length _ _ H) as Hl. rewrite <- ravel_rev by exact Hl.
+  assert (Hr : inshape (rev idx) (rev shape)) by (apply Forall2_rev; exact H).
+  unfold c2f. rewrite reindex_nth by (apply SwapEndToEnd.ravel_lt; exact Hr).
+  rewrite SwapEndToEnd.unravel_ravel by exact Hr. rewrite rev_involutive. reflexivity.
+Qed.
+
+Theorem fravel_lt shape idx : inshape idx shape -> (fravel shape idx < prodl shape)%nat.
+Proof.
+  intros H. rewrite <- ravel_rev by (apply inshape_length; exact H). change (prodl shape) with (prodn shape). rewrite <- (prodn_rev shape). change (prodn (rev shape)) with (prodl (rev shape)).
+  apply SwapEndToEnd.ravel_lt. apply Forall2_rev. exact H.
+Qed.
+
+(* ------------------------------------------------------------------------------------------------ *)
+(* non-vacuity on R: a concrete object and a guarded history of seven operations whose run succeeds *)
+Definition wit_k : list R := [0;0;0;1;2;3;3;3].
+Definition wit_o : obj R := mkObj [mkBasis 3 wit_k 0] [[0];[1];[3];[2];[5]] 1 false.
+Definition wit_tol : R := 1/100.
+Definition wit_rest : list (@op2 R) :=
+  [OpOld (OpReverse 0); OpOld OpForceRational; OpOld (OpSetDimension 3); OpRotate (3/5) (4/5) [0;0;1] 1; OpMirror [1;0;0] 1; OpSection []].
+Definition wit_hist : list (@op2 R) := OpSplitPick 0 [1; 3/2] 1 :: wit_rest.
+
+Lemma wit_hyps : split_hyps wit_tol wit_o 0 3 wit_k [1; 3/2].
+Proof. exact ex_hyps. Qed.
+
+Lemma rotate_ok3 (o : obj R) ch sh nrm iv : o_dim o = 3%nat -> exists o', obj_rotate o ch sh nrm iv = Ok o' /\ o_dim o' = 3%nat /\ o_rat o' = o_rat o.
+Proof.
+  intros Hd. unfold obj_rotate. cbv zeta.
+  match goal with |- context [if ?c then o else obj_set_dimension o 3] => set (cnd := c); set (o1 := if cnd then o else obj_set_dimension o 3) end.
+  assert (H1 : o_dim o1 = 3%nat) by (unfold o1; destruct cnd; [exact Hd|reflexivity]).
+  assert (H2 : o_rat o1 = o_rat o) by (unfold o1; destruct cnd; reflexivity).
+  rewrite H1. cbn [Nat.eqb]. eexists. split; [reflexivity|]. split; [exact H1|exact H2].
+Qed.
+Lemma mirror_ok3 (o : obj R) nrm iv : o_dim o = 3%nat -> exists o', obj_mirror o nrm iv = Ok o' /\ o_dim o' = 3%nat /\ o_rat o' = o_rat o.
+Proof. intros Hd. unfold obj_mirror. rewrite Hd. cbn [Nat.eqb negb]. cbv zeta. eexists. split; [reflexivity|]. split; [exact Hd|reflexivity]. Qed.
+
+Theorem witness_R : inv wit_o /\ weights_pos wit_o /\ guarded2 wit_tol wit_o wit_hist /\ guardedw2 wit_tol wit_o wit_hist /\
+  exists o', run2 wit_tol wit_o wit_hist = Ok o' /\ inv o' /\ weights_pos o' /\ o_dim o' = 3%nat /\ o_rat o' = true.
+Proof.
+  pose proof wit_hyps as H. assert (Htol : 0 < wit_tol) by (unfold wit_tol; lra).
+  assert (HI : inv wit_o) by (apply (wf_obj_inv wit_tol); [exact Htol|exact (sh_wf _ _ _ _ _ _ H)]).
+  assert (HW : weights_pos wit_o) by (intros Hr; discriminate Hr).
+  assert (G : guarded2 wit_tol wit_o wit_hist /\ guardedw2 wit_tol wit_o wit_hist).
+  { assert (Hc : Forall covered_any wit_rest) by (unfold wit_rest; repeat constructor).
+    split.
+    - change (guard2 wit_tol wit_o (OpSplitPick 0 [1; 3/2] 1) /\ forall o1, step2 wit_tol wit_o (OpSplitPick 0 [1; 3/2] 1) = Ok o1 -> guarded2 wit_tol o1 wit_rest).
+      split; [exists 3%nat, wit_k; exact H|]. intros o1 _. apply covered_any_guarded. exact Hc.
+    - change (guardw2 wit_o (OpSplitPick 0 [1; 3/2] 1) /\ forall o1, step2 wit_tol wit_o (OpSplitPick 0 [1; 3/2] 1) = Ok o1 -> guardedw2 wit_tol o1 wit_rest).
+      split; [exact I|]. intros o1 _. apply covered_any_guarded. exact Hc. }
+  destruct G as [G GW]. split; [exact HI|]. split; [exact HW|]. split; [exact G|]. split; [exact GW|].
+  (* the run *)
+  destruct (obj_split_ok wit_tol wit_o 0 3 wit_k [1; 3/2] H 3 ltac:(lia)) as (pieces & E).
+  pose proof (split_length wit_tol wit_o 0 3 wit_k [1; 3/2] H 3 pieces E) as Hlen. cbn [length] in Hlen.
+  destruct (nth_error pieces 1) as [p1|] eqn:En; [|apply nth_error_None in En; lia].
+  assert (E1 : step2 wit_tol wit_o (OpSplitPick 0 [1; 3/2] 1) = Ok p1).
+  { cbn [step2]. change (0 <? o_pardim wit_o)%nat with true. cbn [length]. rewrite E, En. reflexivity. }
+  destruct (split_pick_inv wit_tol wit_o p1 0 [1; 3/2] 1 (ex_intro _ 3%nat (ex_intro _ wit_k H)) E1) as [_ Hl1]. cbn [wit_o o_bases length] in Hl1.
+  set (o2 := obj_reverse p1 0). set (o3 := obj_force_rational o2). set (o4 := obj_set_dimension o3 3).
+  destruct (rotate_ok3 o4 (3/5) (4/5) [0;0;1] 1 eq_refl) as (o5 & E5 & D5 & R5). destruct (mirror_ok3 o5 [1;0;0] 1 D5) as (o6 & E6 & D6 & R6).
+  set (o7 := obj_section o6 (pad_sels (o_pardim o6) [])).
+  assert (ER : run2 wit_tol wit_o wit_hist = Ok o7).
+  { unfold wit_hist. cbn [run2]. rewrite E1. unfold wit_rest. cbn [run2].
+    assert (E2 : step2 wit_tol p1 (OpOld (OpReverse 0)) = Ok o2) by (cbn [step2 step]; unfold o_pardim; rewrite Hl1; reflexivity).
+    rewrite E2. change (step2 wit_tol o2 (OpOld OpForceRational)) with (Ok o3). cbv iota beta.
+    change (step2 wit_tol o3 (OpOld (OpSetDimension 3))) with (Ok o4). cbv iota beta.
+    change (step2 wit_tol o4 (OpRotate (3/5) (4/5) [0;0;1] 1)) with (obj_rotate o4 (3/5) (4/5) [0;0;1] 1). rewrite E5.
+    change (step2 wit_tol o5 (OpMirror [1;0;0] 1)) with (obj_mirror o5 [1;0;0] 1). rewrite E6.
+    cbn [step2 length]. destruct (Nat.ltb_spec (o_pardim o6) 0); [lia|]. reflexivity. }
+  exists o7. split; [exact ER|]. destruct (reachable_weights wit_tol wit_hist wit_o o7 HI HW G GW ER) as [I7 W7].
+  split; [exact I7|]. split; [exact W7|]. split; [exact D6|].
+  change (o_rat o7) with (o_rat o6). rewrite R6, R5. change (o_rat o4) with (o_rat o3). unfold o3, obj_force_rational. destruct (o_rat o2) eqn:Er; [exact Er|reflexivity].
+Qed.
+
+(* ------------------------------------------------------------------------------------------------ *)
+(* the executed (Q) instance: a history of nine operations of nine different kinds on a rational surface succeeds, every
+   intermediate object passes the executable well-formedness test of Model/WF.v (which includes positive weights) *)
+From Coq Require Import QArith.
+Definition q_run2 := @run2 Q NumQ.
+Definition q_trace2 := @trace2 Q NumQ.
+Definition exq_o : obj Q :=
+  @mkObj Q [@mkBasis Q 2 [0;0;1;1]%Q 0; @mkBasis Q 3 [0;0;0;1;1;1]%Q 0]
+    [[0;0;0;1]; [0;1;1;2]; [0;2;0;1]; [1;0;0;1]; [2;2;2;2]; [1;2;3;1]]%Q 3 true.
+Definition exq_c : obj Q := @mkObj Q [@mkBasis Q 2 [0;0;1;2;2]%Q 0] [[5;5]; [6;5]; [6;7]]%Q 2 false.
+Definition exq_tol : Q := (1#1000000)%Q.
+Definition exq_hist : list (@op2 Q) :=
+  [OpOld (OpInsert 0 [(1#2)%Q]); OpRaise [1%nat; 0%nat]; OpSplitPick 1 [(1#2)%Q] 1; OpRotate (3#5)%Q (4#5)%Q [0;0;1]%Q 1%Q;
+   OpMirror [1;0;0]%Q 1%Q; OpSection [0%nat]; OpOld (OpReverse 0); OpAppend exq_c; OpMakePeriodic 0%Z 0].
+
+Example ops2_example_Q :
+  match q_run2 exq_tol exq_o exq_hist with
+  | Ok o' => @wf_obj_b Q NumQ exq_tol o' = true /\ @o_shape Q o' = [6%nat] /\ o_dim o' = 3%nat /\ o_rat o' = true /\
+             map (@b_per1 Q) (o_bases o') = [1%nat]
+  | Err _ => False
+  end /\
+  length (q_trace2 exq_tol exq_o exq_hist) = 10%nat /\
+  forallb (@wf_obj_b Q NumQ exq_tol) (q_trace2 exq_tol exq_o exq_hist) = true.
+Proof. vm_compute. repeat split; reflexivity. Qed.
+
+Print Assumptions step2_preserves_inv.
+Print Assumptions step2_preserves_weights.
+Print Assumptions reachable_inv.
+Print Assumptions trace_inv.
+Print Assumptions reachable_weights.
+Print Assumptions reachable_inv_any.
+Print Assumptions reachable_inv_covered.
+Print Assumptions flat_index_bijection.
+Print Assumptions c2f_entry.
+Print Assumptions witness_R.
+Print Assumptions ops2_example_Q.
